@@ -41,7 +41,7 @@ is_ipv4 (const char *start, const char *end)
             }
         }
         else if (ch == '.') {
-            if (in_byte == 0 || cp[1] == 0) {
+            if (in_byte == 0 || (cp + 1) == end || cp[1] == 0) {
                 /* misplaced dot */
                 return (NO);
             }
@@ -80,20 +80,15 @@ is_ipv6 (const char *start, const char *end)
         switch (*cp) {
         case 0:
             /* Terminate the loop. */
-            if (field < 2) {
-                /* too few `:' in IPv6 address*/
-                return (NO);
-            }
-            else if (len == 0 && null_field != field - 1) {
-                /* bad null last field in IPv6 address */
-                return (NO);
-            }
-            else
-                return (YES);
+            goto done;
         case '.':
             /* Terminate the loop. */
             if (field < 2 || field > 6) {
                 /* malformed IPv4-in-IPv6 address */
+                return (NO);
+            }
+            else if (null_field == 0 && field != 6) {
+                /* without `::' six fields precede the IPv4 address */
                 return (NO);
             }
             else
@@ -135,6 +130,21 @@ is_ipv6 (const char *start, const char *end)
         } break;
         } /* switch */
     } /* for (;;) */
+
+done:
+    /* the address ends here: at `end' or at the terminator */
+    if (field < 2) {
+        /* too few `:' in IPv6 address*/
+        return (NO);
+    }
+    else if (len == 0 && null_field != field - 1) {
+        /* bad null last field in IPv6 address */
+        return (NO);
+    }
+    else if (null_field == 0 && field != 7) {
+        /* without `::' there are exactly eight fields */
+        return (NO);
+    }
 
     return (YES);
 }
